@@ -19,14 +19,24 @@ Qed.
 Lemma best_step_notnan (b : score) (x : score) : b <> SNaN -> (if sgt x b then x else b) <> SNaN.
 Proof. intros Hb. destruct b, x; cbn; try congruence; destruct (_ <? _); congruence. Qed.
 
+Lemma seqb_eq a b : seqb a b = true -> a = b.
+Proof. destruct a, b; cbn; try discriminate; try reflexivity. intros H. apply Z.eqb_eq in H. congruence. Qed.
+
+(* the score component of the running best ignores the tie rule (a tie keeps the same score) *)
+Lemma best_step_fst b e : fst (best_step b e) = if sgt (ev_score e) (fst b) then ev_score e else fst b.
+Proof.
+  unfold best_step, better. destruct (sgt (ev_score e) (fst b)) eqn:G; cbn; [reflexivity|].
+  destruct (is_none (snd b) && seqb (ev_score e) (fst b)) eqn:T; [|reflexivity].
+  apply andb_prop in T. destruct T as [_ T]. apply seqb_eq in T. cbn. exact T.
+Qed.
+
 Section Best.
   Context {OP : optimizer}.
 
   Lemma fold_best_notnan (tr : list ev) b : fst b <> SNaN -> fst (fold_left best_step tr b) <> SNaN.
   Proof.
     revert b. induction tr as [|e tr IH]; intros b Hb; cbn; [assumption|].
-    apply IH. unfold best_step. pose proof (best_step_notnan (fst b) (ev_score e) Hb) as H.
-    destruct (sgt (ev_score e) (fst b)); cbn in *; assumption.
+    apply IH. rewrite best_step_fst. apply best_step_notnan. assumption.
   Qed.
 
   (* the running best reaches m exactly when some score did *)
@@ -35,10 +45,8 @@ Section Best.
   Proof.
     revert b. induction tr as [|e tr IH]; intros b Hb; cbn; [rewrite orb_false_r; reflexivity|].
     rewrite IH.
-    - unfold best_step. pose proof (sge_best_step (fst b) (ev_score e) m Hb) as H.
-      destruct (sgt (ev_score e) (fst b)); cbn [fst] in *; rewrite orb_assoc, <- H; reflexivity.
-    - unfold best_step. pose proof (best_step_notnan (fst b) (ev_score e) Hb) as H.
-      destruct (sgt (ev_score e) (fst b)); cbn in *; assumption.
+    - rewrite best_step_fst, (sge_best_step (fst b) (ev_score e) m Hb), orb_assoc. reflexivity.
+    - rewrite best_step_fst. apply best_step_notnan. assumption.
   Qed.
 End Best.
 
